@@ -239,6 +239,7 @@ def main():
             line = "COPY c%d %s %s %s %s" % (c, mode, point, mut, lpgen.cfg_text(cfg))
             cmds[k].append(("c%d" % c, line, cfg))
             txt += line + "\n"
+    other_diffs = []
     rc, out, err = lpgen.run_harness(exe, txt, "C17")
     B = lpgen.blocks(out)
     if rc != 0:
@@ -273,9 +274,15 @@ def main():
                         tag = "steepest-edge"
                     else:
                         tag = "other:rt%s:simp%s" % (cfg.get("ratiotester", 3), cfg.get("simplifier", 3))
-                    ck.violation("resolve-after-clearBasis-differs:%s" % tag,
-                                 "solving the same unmodified object again after clearBasis() differs in %s (after re-seeding: %s) under %s" % (
-                                     d.get("resolve_after_clearBasis"), d.get("resolve_reseeded"), cfg), rp)
+                    what_ = "solving the same unmodified object again after clearBasis() differs in %s (after re-seeding: %s) under %s" % (
+                        d.get("resolve_after_clearBasis"), d.get("resolve_reseeded"), cfg)
+                    if tag.startswith("other"):
+                        # judged at the end by their frequency: on the unchanged tree about one re-solve in 20000 differs in configurations
+                        # without a known cause (known finding, 'rare'); a component that carries state across solves shows up in a large
+                        # share of the runs ('frequent')
+                        other_diffs.append((tag, what_, rp))
+                    else:
+                        ck.violation("resolve-after-clearBasis-differs:%s" % tag, what_, rp)
             else:
                 ck.count("copy:%s:%s:%s" % (d.get("mode"), d.get("point"), d.get("mut")))
                 if d.get("equal") != "none":
@@ -307,6 +314,12 @@ def main():
                                  "after destroying the source, using the copy (taken at '%s') died with signal %d" % (d.get("point"), -1000 - st), rp)
         if k < 2:
             ck.sample({"lp": p.text(str(k)), "commands": [c[1] for c in cmds[k]], "results": [res.get(c[0], {}) for c in cmds[k]]})
+    ndet = sum(1 for k_ in cmds for c_ in cmds[k_] if c_[1].startswith("DET "))
+    limit = max(1, ndet // 5000)
+    ck.cov["resolve_differences_without_known_cause"] = {"count": len(other_diffs), "DET_runs": ndet, "rare_up_to": limit}
+    for (tag, what_, rp) in other_diffs:
+        ck.violation("resolve-after-clearBasis-differs:%s:%s" % (tag, "rare" if len(other_diffs) <= limit else "frequent"),
+                     what_ + " (%d such differences in %d DET runs)" % (len(other_diffs), ndet), rp)
     ck.cov["explanation"] = ("partial: the aliasing obligation over the regenerated copy table (which member of SoPlexBase<R> operator= clones, deep-copies, rebinds or "
                              "assigns) is proved in Coq on every run; determinism (two objects with interposed heap perturbation; re-solve after clearBasis), "
                              "equality of copies (copy constructor, assignment to a fresh and to a used object, before/after solve, with/without rational LP) and "
